@@ -30,6 +30,9 @@ type fragReader struct {
 	plan     []int // sizes of successive reads (0 = a zero-length read); afterwards: as much as fits
 	eofWith  bool  // deliver io.EOF together with the last data
 	step     int
+	maxRead  int // after the plan: no read delivers more than this (0: no limit)
+	every    int // after the plan: every every-th read is an empty (0, nil) read - legal, "discouraged" by io.Reader
+	reads    int
 }
 
 func (r *fragReader) Read(p []byte) (int, error) {
@@ -42,6 +45,14 @@ func (r *fragReader) Read(p []byte) (int, error) {
 			n = r.plan[r.step]
 		}
 		r.step++
+	} else {
+		r.reads++
+		if r.every > 0 && r.reads%r.every == 0 {
+			return 0, nil
+		}
+		if r.maxRead > 0 && n > r.maxRead {
+			n = r.maxRead
+		}
 	}
 	if n > len(r.b) {
 		n = len(r.b)
@@ -102,6 +113,11 @@ func makeCarrier(kind int, content []byte, e *Env) interface{} {
 			r.eofWith = e.P(2) == 1
 			for i := 0; i < 4; i++ {
 				r.plan = append(r.plan, []int{1, 0, 2, 7, 1023, 1024, 100000}[e.P(7)])
+			}
+			if len(c) >= 200 && e.P(8) == 7 {
+				// a slow source: many small reads, every 2nd or 3rd of them empty, over the whole message
+				r.maxRead = 1 + len(c)/(110+e.P(150))
+				r.every = 2 + e.P(2)
 			}
 		} else {
 			r.plan = []int{1, 0, 2}
